@@ -410,8 +410,34 @@ class Executor:
             k = (id(a), id(b))
             if k in hm:
                 return hm[k][0]
-            r = self._merge_value(c, a, b, ctx)
-            hm[k] = (r, a, b)
+            # allocate the merged object first (object graphs are cyclic: URL <-> its memo)
+            if type(a) is not type(b):
+                raise Unmergeable()
+            if isinstance(a, VObj):
+                if a.cls != b.cls or a.fields.keys() != b.fields.keys():
+                    raise Unmergeable()
+                r = VObj(a.cls, {}, a.fresh and b.fresh)
+                hm[k] = (r, a, b)
+                r.fields = {f: self.merge_value(c, a.fields[f], b.fields[f], ctx) for f in a.fields}
+            elif isinstance(a, VDict):
+                if a.d.keys() != b.d.keys() or a.fresh != b.fresh:
+                    raise Unmergeable()
+                r = VDict({}, a.fresh)
+                hm[k] = (r, a, b)
+                r.d = {f: self.merge_value(c, a.d[f], b.d[f], ctx) for f in a.d}
+            elif isinstance(a, VList):
+                if len(a.items) != len(b.items) or a.fresh != b.fresh:
+                    raise Unmergeable()
+                r = VList([], a.fresh)
+                hm[k] = (r, a, b)
+                r.items = [self.merge_value(c, x, y, ctx) for x, y in zip(a.items, b.items)]
+            else:
+                if a.removed != b.removed or a.extra.keys() != b.extra.keys():
+                    raise Unmergeable()
+                r = VSymCache(None, a.removed, {})
+                hm[k] = (r, a, b)
+                r.owner = self.merge_value(c, a.owner, b.owner, ctx)
+                r.extra = {f: self.merge_value(c, a.extra[f], b.extra[f], ctx) for f in a.extra}
             return r
         return self._merge_value(c, a, b, ctx)
 
